@@ -107,17 +107,27 @@ def unjson(x):
     return x
 
 
+def _in_twisted(fn):
+    return (fn.startswith("/repo/") or fn.startswith(os.environ.get("VERIF_REPO_SRC", "/repo/"))) and "/twisted/" in fn
+
+
 def _crash_origin(tb):
-    """(in_repo, where) for the innermost frame of a traceback."""
-    last = None
+    """(through_twisted, where).  True when the innermost frame is Twisted code, or when the
+    exception was raised by a harness callback and travelled out *through* Twisted frames
+    (Twisted failed to contain it)."""
+    frames = []
     while tb is not None:
-        last = tb
+        frames.append(tb.tb_frame.f_code)
         tb = tb.tb_next
-    if last is None:
+    if not frames:
         return False, "?"
-    code = last.tb_frame.f_code
-    fn = code.co_filename
-    return (fn.startswith("/repo/") or fn.startswith(os.environ.get("VERIF_REPO_SRC", "/repo/"))) and "/twisted/" in fn, "%s:%s" % (os.path.basename(fn), code.co_name)
+    last = frames[-1]
+    if _in_twisted(last.co_filename):
+        return True, "%s:%s" % (os.path.basename(last.co_filename), last.co_name)
+    tw = [c for c in frames if _in_twisted(c.co_filename)]
+    if tw:
+        return True, "escaped-through:%s:%s" % (os.path.basename(tw[-1].co_filename), tw[-1].co_name)
+    return False, "%s:%s" % (os.path.basename(last.co_filename), last.co_name)
 
 
 def _work(args):
@@ -133,7 +143,8 @@ def _work(args):
         st = Stats()
         in_repo, where = _crash_origin(e.__traceback__)
         tbs = traceback.format_exc()
-        if in_repo and not isinstance(e, (KeyboardInterrupt, MemoryError)):
+        internal = type(e).__name__ in ("NondeterminismLeak", "_Abort", "Crash", "Deadlock", "KeyboardInterrupt", "MemoryError")
+        if in_repo and not internal:
             st.violation("crash:%s@%s" % (type(e).__name__, where),
                          {"traceback": tbs[-3000:]}, {"shard": _jsonable(shard)})
         else:
